@@ -11,6 +11,13 @@ Property theorems only (helper lemmas: `Infretis/Lemmas/PathAlg.lean`, `PathAlgC
 Model: `Infretis/Model/PathAlg.lean` (mirrors `infretis/classes/path.py`, `system.py`).
 Paths of any length, any limit (`maxlen` may be `None`, zero or negative), any heap.
 
+The clause "reversing twice restores the frames" holds exactly under the two guards of `reverse_reverse`:
+the path is within its limit (`hfits`; otherwise the first reversal truncates:
+`reverse_reverse_overlimit_counterexample`, a state reachable through `load_paths_from_disk` / a lowered
+`maxlen`) and, when the order parameter is re-computed, the stored orders are the ones the order function
+computes (`hcons`; otherwise `reverse_reverse_stale_order_counterexample`).  `paste_paths` is modelled as the
+repaired code (960b399); the behaviour before it is `pasteV .asIs` (`paste_none_limit_asIs_counterexample`).
+
 Vocabulary: `capTake ml xs` = `xs` truncated at the limit `ml` (`None` = no limit, limits ≤ 0 keep
 nothing); `capLen ml n` = the corresponding length; `WF h rs` = all references in `rs` point into
 the heap `h`; `h.look r` = the object behind reference `r` (`none` if dangling).
@@ -25,26 +32,27 @@ open Infretis.PathAlg
 def pasteSeq (back forw : Path) (ov : Bool) : List Nat :=
   back.frames.reverse ++ (if ov then forw.frames.drop 1 else forw.frames)
 
-/-- **The limit of the pasted path** as the code computes it: the explicit `maxlen` if given, else the
-    common limit, else the larger one; `TypeError` exactly when no `maxlen` is given and exactly one
-    of the two limits is `None` (Python 3: `max(None, int)`). -/
+/-- **The limit of the pasted path** as the (repaired, 960b399) code computes it, for EVERY pair of
+    limits: the explicit `maxlen` if given, else the common limit, else — when exactly one of the two
+    is `None` — the other one, else the larger one.  It never fails. -/
 theorem paste_limit (bm fm ml : Option Int) :
     pasteMaxlen bm fm ml =
       match ml, bm, fm with
       | some m, _, _ => .ok (some m)
       | none, none, none => .ok none
       | none, some a, some b => .ok (some (max a b))
-      | none, _, _ => .error .type := by
+      | none, none, some b => .ok (some b)
+      | none, some a, none => .ok (some a) := by
   cases ml with
   | some m => rfl
   | none =>
     cases bm with
-    | none => cases fm <;> simp [pasteMaxlen]
+    | none => cases fm <;> simp [pasteMaxlen, pasteMaxlenV]
     | some a =>
       cases fm with
-      | none => simp [pasteMaxlen]
+      | none => simp [pasteMaxlen, pasteMaxlenV]
       | some b =>
-        simp only [pasteMaxlen]
+        simp only [pasteMaxlen, pasteMaxlenV]
         by_cases hab : a = b
         · subst hab; simp
         · have : (some a = some b) = False := by simp [hab]
@@ -54,7 +62,56 @@ theorem paste_limit (bm fm ml : Option Int) :
           · rw [if_pos h]; omega
           · rw [if_neg h]; omega
 
-/-- `paste_paths` fails only through the limit computation -/
+/-- **`paste_paths` is total**: for every pair of segments, every pair of limits (also exactly one
+    `None`), every overlap flag and every explicit limit it returns a path. -/
+theorem paste_total (back forw : Path) (ov : Bool) (ml : Option Int) :
+    ∃ np, paste back forw ov ml = .ok np := by
+  have hl := paste_limit back.maxlen forw.maxlen ml
+  have : ∃ cap, pasteMaxlen back.maxlen forw.maxlen ml = .ok cap := by
+    rw [hl]
+    cases ml with
+    | some m => exact ⟨_, rfl⟩
+    | none => cases back.maxlen <;> cases forw.maxlen <;> exact ⟨_, rfl⟩
+  obtain ⟨cap, hc⟩ := this
+  exact ⟨_, paste_closed back forw ov ml cap hc⟩
+
+/-- **Before fix 960b399** (`Variant.asIs`) the limit computation was `max(path_back.maxlen,
+    path_forw.maxlen)`, which raises TypeError when exactly one limit is `None`: pasting an unlimited
+    backward segment with a forward segment limited to 100 frames failed although the property
+    quantifies over all limits.  The repaired code picks the other limit. -/
+theorem paste_none_limit_asIs_counterexample :
+    let back : Path := { Path.empty none 0 with frames := [0, 1] }
+    let forw : Path := { Path.empty (some 100) 0 with frames := [0, 2] }
+    pasteV .asIs back forw true none = .error .type
+    ∧ pasteV .asIs forw back true none = .error .type
+    ∧ (paste back forw true none).map (fun np => (np.maxlen, np.frames)) = .ok (some 100, [1, 0, 2])
+    ∧ (paste forw back true none).map (fun np => (np.maxlen, np.frames)) = .ok (some 100, [2, 0, 1]) := by
+  refine ⟨rfl, rfl, rfl, rfl⟩
+
+/-- the two variants are the same function wherever the old code did not raise -/
+theorem pasteV_agree (back forw np : Path) (ov : Bool) (ml : Option Int)
+    (h : pasteV .asIs back forw ov ml = .ok np) : paste back forw ov ml = .ok np := by
+  have key : pasteMaxlenV .asIs back.maxlen forw.maxlen ml = pasteMaxlen back.maxlen forw.maxlen ml
+      ∨ ∃ e, pasteMaxlenV .asIs back.maxlen forw.maxlen ml = .error e := by
+    unfold pasteMaxlen pasteMaxlenV
+    cases ml with
+    | some m => exact Or.inl rfl
+    | none =>
+      cases back.maxlen with
+      | none =>
+        cases forw.maxlen with
+        | none => exact Or.inl rfl
+        | some b => exact Or.inr ⟨.type, by simp⟩
+      | some a =>
+        cases forw.maxlen with
+        | none => exact Or.inr ⟨.type, by simp⟩
+        | some b => exact Or.inl (by by_cases hab : a = b <;> simp [hab])
+  rcases key with k | ⟨e, k⟩
+  · unfold pasteV at h; unfold paste; rw [← k]; exact h
+  · unfold pasteV at h; rw [k] at h; cases h
+
+/-- `paste_paths` fails only through the limit computation (which, by `paste_limit`, never fails:
+    see `paste_total`) -/
 theorem paste_error_iff (back forw : Path) (ov : Bool) (ml : Option Int) (e : Err) :
     paste back forw ov ml = .error e ↔ pasteMaxlen back.maxlen forw.maxlen ml = .error e := by
   cases hc : pasteMaxlen back.maxlen forw.maxlen ml with
@@ -148,8 +205,9 @@ example :
     ∧ (paste back forw false (some (-1))).map (·.frames) = .ok [] := by
   refine ⟨rfl, rfl, rfl⟩
 
-/-- `max(None, int)`: the pasted limit cannot be computed -/
-example : paste (Path.empty none 0) (Path.empty (some 3) 0) true none = .error .type := rfl
+/-- one limit `None`: the other is picked (before 960b399: `max(None, int)` raised TypeError) -/
+example : (paste (Path.empty none 0) (Path.empty (some 3) 0) true none).map (·.maxlen) = .ok (some 3)
+    ∧ pasteV .asIs (Path.empty none 0) (Path.empty (some 3) 0) true none = .error .type := ⟨rfl, rfl⟩
 
 
 /-! ## copy, `+=`, append: what is fresh and what is shared -/
@@ -358,18 +416,84 @@ theorem reverse_reverse (h : Heap) (p : Path) (ofn : Option OrderFn) (rv : Bool)
     obtain ⟨c1, c2⟩ := hcons f hf hvd hrv
     exact ⟨c1, c2 r hr s hl⟩
 
+/-- non-vacuity of `reverse_reverse` WITH order re-computation: the stored orders are the ones the order
+    function computes (`hcons`), the path is within its limit (`hfits`); the theorem is applied -/
 example :
     let v : Vals := { config := (0, 0), order := [3], velRev := false, ekin := none, vpot := none,
                       pos := 1, vel := 2, box := 0, temp := 0 }
-    let w : Vals := { v with order := [7], velRev := true, pos := 5 }
+    let w : Vals := { v with order := [3], velRev := true, pos := 5 }
     let h : Heap := { sys := [{ v := v, orderObj := 0 }, { v := w, orderObj := 1 }], nOrd := 2 }
     let p : Path := { Path.empty (some 5) 3 with frames := [0, 1] }
     let f : OrderFn := { velDep := true, calcF := fun x => [x.pos + (if x.velRev then -1 else 1) * x.vel] }
     vals (Path.reverse h p (some f) true).1 (Path.reverse h p (some f) true).2
-      = [some { w with velRev := false }, some { v with velRev := true, order := [-1] }]
-    ∧ capLen p.maxlen p.frames.length = p.frames.length := by
-  refine ⟨rfl, rfl⟩
+      = [some { w with velRev := false, order := [7] }, some { v with velRev := true, order := [-1] }]
+    ∧ vals (Path.reverse (Path.reverse h p (some f) true).1 (Path.reverse h p (some f) true).2 (some f) true).1
+           (Path.reverse (Path.reverse h p (some f) true).1 (Path.reverse h p (some f) true).2 (some f) true).2
+        = vals h p := by
+  intro v w h p f
+  refine ⟨rfl, ?_⟩
+  apply reverse_reverse h p (some f) true
+  · intro r hr
+    have : r = 0 ∨ r = 1 := by simpa [p, Path.empty] using hr
+    rcases this with rfl | rfl <;> decide
+  · rfl
+  · intro f' hf _ _
+    have hf' : f = f' := Option.some.inj hf
+    subst hf'
+    refine ⟨fun _ _ => rfl, ?_⟩
+    intro r hr s hs
+    have : r = 0 ∨ r = 1 := by simpa [p, Path.empty] using hr
+    rcases this with rfl | rfl
+    · have : s = { v := v, orderObj := 0 } := (Option.some.inj hs).symm
+      subst this; rfl
+    · have : s = { v := w, orderObj := 1 } := (Option.some.inj hs).symm
+      subst this; rfl
 
+/-- **`reverse_reverse` needs `hfits`**: a path LONGER than its limit is reachable
+    (`load_paths_from_disk` fills `phasepoints` directly and sets `maxlen` afterwards; `tis.py` lowers
+    `maxlen` of existing paths).  On the op machine: 4 frames (orders 0,1,2,3), then the limit is set to 3:
+    the first `reverse` keeps only the 3 latest frames (3,2,1), the second gives (1,2,3) — reversing
+    twice does NOT restore the frames (path 0 ≠ path 2), and the state violates exactly `hfits`. -/
+theorem reverse_reverse_overlimit_counterexample :
+    let v : Vals := { config := (0, 0), order := [0], velRev := false, ekin := none, vpot := none,
+                      pos := 0, vel := 0, box := 0, temp := 0 }
+    let m := Machine.init.run [.new none 0, .sys 0 v, .sys 0 { v with order := [1] }, .sys 0 { v with order := [2] },
+      .sys 0 { v with order := [3] }, .pset 0 (.maxlen (some 3)), .rev 0 none true, .rev 1 none true]
+    m.paths.map (fun p => (vals m.heap p).map (Option.map (·.order)))
+      = [[some [0], some [1], some [2], some [3]], [some [3], some [2], some [1]], [some [1], some [2], some [3]]]
+    ∧ m.paths.map (fun p => decide (capLen p.maxlen p.frames.length = p.frames.length)) = [false, true, true]
+    ∧ (∀ p0 p2, m.paths[0]? = some p0 → m.paths[2]? = some p2 → vals m.heap p2 ≠ vals m.heap p0) := by
+  intro v m
+  have e : m.paths.map (fun p => (vals m.heap p).map (Option.map (·.order)))
+      = [[some [0], some [1], some [2], some [3]], [some [3], some [2], some [1]], [some [1], some [2], some [3]]] := by
+    decide
+  refine ⟨e, by decide, ?_⟩
+  intro p0 p2 h0 h2 hh
+  have e0 : (m.paths.map (fun p => (vals m.heap p).map (Option.map (·.order))))[0]?
+      = some ((vals m.heap p0).map (Option.map (·.order))) := by rw [List.getElem?_map, h0]; rfl
+  have e2 : (m.paths.map (fun p => (vals m.heap p).map (Option.map (·.order))))[2]?
+      = some ((vals m.heap p2).map (Option.map (·.order))) := by rw [List.getElem?_map, h2]; rfl
+  rw [e] at e0 e2
+  rw [hh] at e2
+  rw [← e2] at e0
+  revert e0
+  decide
+
+/-- **`reverse_reverse` needs `hcons`**: when a frame's stored `order` is NOT what the (velocity
+    dependent) order function computes for it — a stale value — the second reversal re-computes it, so
+    the frames are not restored (stored 7, recomputed 3). -/
+theorem reverse_reverse_stale_order_counterexample :
+    let v : Vals := { config := (0, 0), order := [7], velRev := false, ekin := none, vpot := none,
+                      pos := 1, vel := 2, box := 0, temp := 0 }
+    let h : Heap := { sys := [{ v := v, orderObj := 0 }], nOrd := 1 }
+    let p : Path := { Path.empty none 0 with frames := [0] }
+    let f : OrderFn := { velDep := true, calcF := fun x => [x.pos + (if x.velRev then -1 else 1) * x.vel] }
+    let r1 := Path.reverse h p (some f) true
+    let r2 := Path.reverse r1.1 r1.2 (some f) true
+    vals r2.1 r2.2 = [some { v with order := [3] }] ∧ vals h p = [some v] ∧ vals r2.1 r2.2 ≠ vals h p
+    ∧ f.calcF v ≠ v.order := by
+  intro v h p f r1 r2
+  refine ⟨rfl, rfl, by decide, by decide⟩
 
 /-! ## classification: ordermin / ordermax / start / end / crossing against the sequence -/
 
